@@ -101,6 +101,27 @@ impl Tracer {
             },
         }
     }
+    fn sorted_everywhere(&self, e: &Envelope) -> bool {
+        match e.case() {
+            EnvelopeCase::Node { subject, assertions, .. } => {
+                assertions.windows(2).all(|w| w[0].digest().data() < w[1].digest().data())
+                    && self.sorted_everywhere(subject)
+                    && assertions.iter().all(|a| self.sorted_everywhere(a))
+            }
+            EnvelopeCase::Assertion(a) => self.sorted_everywhere(&a.predicate()) && self.sorted_everywhere(&a.object()),
+            EnvelopeCase::Wrapped { envelope, .. } => self.sorted_everywhere(envelope),
+            EnvelopeCase::Encrypted(msg) => {
+                for (_name, k) in self.keys.iter() {
+                    if let Ok(plain) = k.decrypt(msg) {
+                        return Envelope::try_from_cbor_data(plain).map(|i| self.sorted_everywhere(&i)).unwrap_or(true);
+                    }
+                }
+                true
+            }
+            EnvelopeCase::Compressed(c) => c.uncompress().ok().and_then(|b| Envelope::try_from_cbor_data(b).ok()).map(|i| self.sorted_everywhere(&i)).unwrap_or(true),
+            _ => true,
+        }
+    }
     fn full(&self) -> Vec<usize> {
         (0..self.regs.len()).filter(|i| self.regs[*i].is_some()).collect()
     }
@@ -112,6 +133,20 @@ impl Tracer {
         match r {
             Ok(e) => {
                 let res = self.project(&e);
+                // canonical form of what the call returned (C04 / C05 on large envelopes): stored assertions
+                // strictly ascending by digest at every node, also inside what decrypts / inflates; the
+                // encoding decodes back to an identical envelope with identical bytes
+                let mut extra = extra;
+                let bytes = e.tagged_cbor().to_cbor_data();
+                let back = Envelope::try_from_cbor_data(bytes.clone());
+                let reencode = match &back {
+                    Ok(b) => b.is_identical_to(&e) && b.tagged_cbor().to_cbor_data() == bytes,
+                    Err(_) => false,
+                };
+                if let Some(m) = extra.as_object_mut() {
+                    m.insert("sorted".into(), json!(self.sorted_everywhere(&e)));
+                    m.insert("reencode".into(), json!(reencode));
+                }
                 self.regs[dst] = Some(e);
                 self.out.push(json!({"op": op, "args": args, "dst": dst + 1, "out": "ok", "res": res, "extra": extra}));
             }
@@ -182,10 +217,49 @@ impl Tracer {
                 let r = e.add_assertion_envelope(self.regs[ra].clone().unwrap()).map_err(er);
                 self.emit("add_assertion_envelope", json!([src + 1, ra + 1]), dst, r, json!({}));
             }
-            37..=40 => {
+            37..=38 => {
                 let rt = self.pick_full().unwrap();
                 let r = e.remove_assertion(self.regs[rt].clone().unwrap());
                 self.emit("remove_assertion", json!([src + 1, rt + 1]), dst, Ok(r), json!({}));
+            }
+            39..=40 => {
+                // a burst: several assertions added to one register, then some of them removed again
+                // (nodes with many assertions; removal from the front / middle of the stored order)
+                let tmp = (src + 1) % nreg;
+                let k = self.rng.gen_range(3..=6);
+                for _ in 0..k {
+                    let (rp, ro) = (self.pick_full().unwrap(), self.pick_full().unwrap());
+                    let a = Envelope::new_assertion(self.regs[rp].clone().unwrap(), self.regs[ro].clone().unwrap());
+                    self.emit("new_assertion", json!([rp + 1, ro + 1]), tmp, Ok(a), json!({}));
+                    let cur = self.regs[src].clone().unwrap();
+                    let r = cur.add_assertion_envelope(self.regs[tmp].clone().unwrap()).map_err(er);
+                    self.emit("add_assertion_envelope", json!([src + 1, tmp + 1]), src, r, json!({}));
+                }
+                // replace one of them by a fresh assertion
+                {
+                    let cur = self.regs[src].clone().unwrap();
+                    let asv = cur.assertions();
+                    if let Some(a) = asv.choose(&mut self.rng).cloned() {
+                        let (rp, ro) = (self.pick_full().unwrap(), self.pick_full().unwrap());
+                        let n = Envelope::new_assertion(self.regs[rp].clone().unwrap(), self.regs[ro].clone().unwrap());
+                        self.emit("new_assertion", json!([rp + 1, ro + 1]), tmp, Ok(n.clone()), json!({}));
+                        let id = self.did(a.digest().data());
+                        let r = cur.replace_assertion(a, n).map_err(er);
+                        self.emit("replace_present", json!([src + 1, id, tmp + 1]), src, r, json!({}));
+                    }
+                }
+                for _ in 0..self.rng.gen_range(1..=3) {
+                    let cur = self.regs[src].clone().unwrap();
+                    let mut asv = cur.assertions();
+                    asv.sort_by(|a, b| a.digest().data().cmp(b.digest().data()));
+                    // prefer the front of the stored order
+                    let pick = if asv.is_empty() { None } else { Some(asv[self.rng.gen_range(0..asv.len().min(3))].clone()) };
+                    if let Some(a) = pick {
+                        let id = self.did(a.digest().data());
+                        let r = cur.remove_assertion(a);
+                        self.emit("remove_present", json!([src + 1, id]), src, Ok(r), json!({}));
+                    }
+                }
             }
             41..=43 => {
                 // remove an assertion that is present
